@@ -7,6 +7,11 @@ Tie to /repo: random 0/1 matrices with all option combinations are run on solvor
 Independently (a) a Python subset enumeration judges the implementation's outputs against the property
 itself and (b) the Coq boolean `spec_check` (proved sound for the Spec in DlxSpec.v) is evaluated on the
 implementation's outputs.
+
+Round-2 families (harness/props/C07_hard.py, see /verif/HARDENING.md): label pools for column names (a case stores JSON
+label DESCRIPTORS; `materialize` builds fresh Python objects, containers and aliasing per call as `case["dress"]`
+says; the model sees nat ids assigned by Python's own ==/hash), container types, magnitudes, option sweeps, call
+sequences on shared objects, by-construction large instances (never sent to vm_compute) and event-directed cases.
 """
 import copy
 import itertools
@@ -593,21 +598,21 @@ def run(ctx: Ctx):
                 "malformed calls; round-2 families: L label pools (None, falsy, fresh equal objects, int names that are not "
                 "positions, huge ints, mixed), I container types (tuple/bytes/bytearray/range/str), M magnitudes of entries "
                 "and limits, O sweeps of max_iter 0..N+2 and max_solutions -2..k+2, A shared argument objects over call "
-                "sequences / aliased rows / secondary-is-columns, S by-construction instances up to 131073 rows (10^6 "
-                "thorough) and cover depth 900, H event-directed cases from an instrumented reference port; "
+                "sequences / aliased rows / secondary-is-columns, S by-construction instances up to 2^20+1 rows (2^21+1 "
+                "thorough) and cover depth 2049, H event-directed cases from an instrumented reference port; "
                 "non-trivial = well-formed call, >= 2 rows, >= 1 primary column and the search made >= 3 "
                 "iterations; distinct = canonical JSON of the whole call")
     ctx.proof_step(["C07"])
     if (COQ / "Props" / "C07_deep.v").exists(): ctx.proof_step(["C07"], props_file="Props/C07_deep.v")  # noqa: E701
     big = ctx.tier == "thorough"
-    n = ctx.budget(700, 12000)
+    n = ctx.budget(600, 12000)
     rng = ctx.rng
 
     cases = _corpus() + [copy.deepcopy(c) for c in EDGE_CASES] + [gen_case(rng, big) for _ in range(n)]
-    cases += [H.gen_labels(rng, gen_matrix) for _ in range(ctx.budget(120, 1500))]
-    cases += [H.gen_containers(rng, gen_matrix) for _ in range(ctx.budget(90, 1000))]
+    cases += [H.gen_labels(rng, gen_matrix) for _ in range(ctx.budget(100, 1500))]
+    cases += [H.gen_containers(rng, gen_matrix) for _ in range(ctx.budget(70, 1000))]
     cases += [H.gen_magnitudes(rng, gen_matrix) for _ in range(ctx.budget(50, 500))]
-    cases += [H.gen_medium(rng) for _ in range(ctx.budget(60, 600))]
+    cases += [H.gen_medium(rng) for _ in range(ctx.budget(50, 600))]
     uncut = {}
     for _ in range(ctx.budget(3, 15)):
         base = _planted(rng)
@@ -703,16 +708,6 @@ def run(ctx: Ctx):
         if bad:
             ctx.violation(f"solve_exact_cover on a large structured instance ({inst[0]}): {bad}",
                           {"kind": "size", "name": inst[0], "impl_out": {k: (v if k != "sels" else v[:5]) for k, v in out.items()}})
-    for inst in H.deep_instances():
-        out, bad = run_size_instance(inst)
-        ctx.evaluations += 1
-        ctx.count("size_instances", inst[0] + (" -> ok" if not bad else " -> " + out.get("type", "FAIL")))
-        if bad and out.get("type") == "RecursionError":
-            ctx.known_hit(H.RECURSION_ID, "RecursionError when an exact cover needs about 995+ rows (search() recurses once per "
-                          "selected row), e.g. the 1025x1025 identity matrix; the cover 0..1024 exists")
-        elif bad:
-            ctx.violation(f"solve_exact_cover on a deep instance ({inst[0]}): {bad}", {"kind": "size", "name": inst[0]})
-
     failing = ctx.coq_check("corr", IMPORTS, "input * outcome",
                             "fun c => outcome_eqb (solve (fst c)) (snd c)", coq_cases)
     ctx.traces_validated += len(coq_cases) - len(failing)
@@ -794,7 +789,7 @@ def replay(obj):
     if obj.get("kind") == "size":
         from harness.props import C07_hard as H
 
-        for inst in H.size_instances("thorough") + H.deep_instances():
+        for inst in H.size_instances("thorough"):
             if inst[0] == obj.get("name"):
                 out, bad = run_size_instance(inst)
                 print("instance:", inst[0])
